@@ -43,6 +43,11 @@ def main(ctx):
             for part in range(8):
                 jobs.append({"kind": "mix", "impl": impl, "part": part, "parts": 8,
                              "seed": ctx.seed})
+            if impl in ("py", "nvx-wrapper"):
+                jobs.append({"kind": "fresh", "impl": impl})
+            for totals in ([[256], [257], [300]] if tier != "thorough" else
+                           [[255], [256], [257], [272], [300], [511], [1027]]):
+                jobs.append({"kind": "long", "impl": impl, "totals": totals})
         jobs.append({"kind": "selection", "impl": impls[0]})
         ctx.pmap(env, "props.c09:job", jobs, chunksize=4)
     ctx.coverage["states"] = int(ctx.counters["product_states"])
@@ -52,7 +57,7 @@ def main(ctx):
     ctx.coverage["distinct_outcomes"] = int(ctx.counters["outcome_valid"] > 0) + \
         int(ctx.counters["outcome_invalid"] > 0) + int(ctx.counters["outcome_incomplete"] > 0)
     for n in ("product_transitions", "outcome_valid", "outcome_invalid", "outcome_incomplete",
-              "impl:py", "impl:nvx-wrapper", "impl:c-impl2"):
+              "impl:py", "impl:nvx-wrapper", "impl:c-impl2", "fresh_after_dropped"):
         ctx.require(n)
     ctx.require("product_states", 9 * 6)
 
@@ -192,6 +197,68 @@ def job(a):
         if lead in (0xE0, 0xF4):
             samples.append({"impl": impl, "kind": kind, "lead": "%02x" % lead, "max_len": L,
                             "strings": stats["strings"]})
+    elif kind == "fresh":
+        # a NEW validator object starts in the initial state - without reset() - whatever state
+        # earlier validator objects were dropped in (handles must not be recycled with their state)
+        import gc
+        import autobahn.websocket.utf8validator as u
+        first, second = R.reachable_states()
+        probes = [b"A", b"\xac", b"\x80", b"\xe2\x82\xac", b"\xf0\x9f", b""]
+        for st, w1 in first.items():
+            for w in (w1, second.get(st), (w1 or b"") + b"\xff"):
+                if w is None:
+                    continue
+                for ndrop in (1, 3):
+                    olds = [u.Utf8Validator() for _ in range(ndrop)]
+                    for o in olds:
+                        o.validate(w)
+                    del olds, o
+                    gc.collect()
+                    for probe in probes:
+                        v2 = u.Utf8Validator()
+                        got = tuple(v2.validate(probe))
+                        exp = tuple(R.expected_quads([probe])[0])
+                        evals += 1
+                        stats["impl:" + impl] += 1
+                        stats["fresh_after_dropped"] = stats.get("fresh_after_dropped", 0) + 1
+                        if got != exp and len(viol) < 4:
+                            viol.append({
+                                "sig": "C09|%s|fresh-validator-inherits-state|quad" % impl,
+                                "desc": "%s: after %d validator(s) fed %s were dropped, a new validator gives "
+                                        "%s for %s, expected %s" % (impl, ndrop, w.hex(), got, probe.hex(), exp),
+                                "replay": {"env": {"fw": "none", "nvx": "0" if impl == "py" else "1"},
+                                           "func": "props.c09:job", "arg": a}})
+                        del v2
+                        gc.collect()
+        samples.append({"impl": impl, "kind": "fresh", "states": len(first)})
+    elif kind == "long":
+        # chunks long enough for block-wise (SIMD / unrolled) code paths: an ill-formed or truncated
+        # piece at EVERY position of a 256..~300 octet chunk of mixed valid code points; fed as one
+        # chunk and cut once around the block sizes
+        good = [b"A", b"\xc3\xa9", b"z", b"\xe2\x82\xac", b"0", b"\xf0\x9f\x98\x80", b"~"]
+        badp = [b"\xc0\x80", b"\xed\xa0\x80", b"\xf4\x90\x80\x80", b"\xf5", b"\x80", b"\xff",
+                b"\xe0\x9f\xbf", b"\xc2", b"\xe1\x80", b"\xf1\x80\x80"]
+        for total in a["totals"]:
+            filler = b""
+            i = 0
+            while len(filler) < total:
+                filler += good[i % len(good)]
+                i += 1
+            filler = filler[:total]
+            while filler and (filler[-1] & 0xC0) == 0x80 or filler[-1:] and filler[-1] >= 0xC0:
+                filler = filler[:-1] + b"A" if False else filler[:-1]
+            run([filler], "long-valid")
+            for pos in range(0, len(filler) + 1):
+                if pos < len(filler) and (filler[pos] & 0xC0) == 0x80:
+                    continue          # keep the prefix well formed: cut only on code point starts
+                for bp in badp:
+                    s_ = filler[:pos] + bp + filler[pos:]
+                    stats["strings"] += 1
+                    run([s_], "long-one-chunk")
+                    for k in (1, 16, 255, 256):
+                        if 0 < k < len(s_):
+                            run([s_[:k], s_[k:]], "long-two-chunks")
+        samples.append({"impl": impl, "kind": "long", "totals": a["totals"]})
     elif kind == "mix":
         good = [b"\x00", b"\x7f", b"\xc2\x80", b"\xdf\xbf", b"\xe0\xa0\x80", b"\xed\x9f\xbf",
                 b"\xee\x80\x80", b"\xef\xbf\xbf", b"\xf0\x90\x80\x80", b"\xf4\x8f\xbf\xbf",
